@@ -18,5 +18,6 @@ MCPlansSym == {p \in MCPlans : \A i, j \in Writers : i < j => Rank(p[i][1]) <= R
 \* a smaller plan space for the liveness run: every writer's transactions end the same way
 \* within one behaviour (all commit, or all roll back - the wake-up on rollback is the
 \* interesting liveness case)
+MCPlansCommit == {[i \in Writers |-> [j \in 1..NTxn |-> "commit"]]}
 MCPlansLive == {[i \in Writers |-> [j \in 1..NTxn |-> h]] : h \in {"commit", "rollback"}}
 =============================================================================
